@@ -424,10 +424,24 @@ class Check(Property):
             for h in ("to_root_units", "to_base_units", "to_reduced_units"):
                 with warnings.catch_warnings():
                     warnings.simplefilter("ignore")
+                    src_arr = arr.copy()
+                    src_q = uf.Quantity(src_arr, units)
                     try:
-                        r = getattr(uf.Quantity(arr.copy(), units), h)()
+                        r = getattr(src_q, h)()
                     except Exception:  # noqa: BLE001
                         continue
+                    # the functional form returns a new quantity: its receiver (and the caller's array) read as before, and a
+                    # second call gives the same result
+                    if not (np.array_equal(src_arr, arr) and np.array_equal(np.asarray(src_q.magnitude), arr) and src_q.units == units):
+                        v.append(f"{tag}: {h}() on the {arr.dtype} array {arr.tolist()} changed its receiver to {src_q!r}")
+                        continue
+                    try:
+                        r2 = getattr(src_q, h)()
+                        if r2.units != r.units or not np.allclose(np.asarray(r2.magnitude, dtype=float), np.asarray(r.magnitude, dtype=float),
+                                                                  rtol=1e-12, atol=0, equal_nan=True):
+                            v.append(f"{tag}: {h}() called twice on the {arr.dtype} array {arr.tolist()} gives {r!r} then {r2!r}")
+                    except Exception:  # noqa: BLE001
+                        pass
                     q2 = uf.Quantity(arr.copy(), units)
                     try:
                         getattr(q2, "i" + h)()
